@@ -4,6 +4,7 @@ import (
 	"fmt"
 	"go/types"
 	"sort"
+	"strings"
 
 	"golang.org/x/tools/go/ssa"
 )
@@ -151,4 +152,66 @@ func (f *frame) calleeAllocs(cm *ssa.CallCommon) map[string]bool {
 		}
 	}
 	return out
+}
+
+
+// emitTagFree states the bookkeeping fact of the state: no id in [tagLo, next) carries the tag of a mentioned
+// struct type (all of them were handed out by allocations of other types in this function or during calls
+// whose allocation set excludes the mentioned types). One quantified fact instead of an arithmetic cover of
+// the interval by the individual allocations.
+func (c *FnCtx) emitTagFree(st *State) {
+	g := c.g
+	key := "tagfree:" + st.reach + ":" + st.tagLo + ":" + st.next
+	if c.dcsDone == nil {
+		c.dcsDone = map[string]bool{}
+	}
+	if c.dcsDone[key] {
+		return
+	}
+	c.dcsDone[key] = true
+	var names []string
+	for n := range g.tagTypes() {
+		names = append(names, n)
+	}
+	sort.Strings(names)
+	for _, n := range names {
+		c.assume(st, fmt.Sprintf("(forall ((a Int)) (! (=> (and (<= %s a) (< a %s)) (not (= (%s a) %d))) :pattern ((%s a))))", st.tagLo, st.next, g.idTagUF(), g.TE.Tag(g.tagTys[n]), g.idTagUF()))
+	}
+}
+
+
+// mentionsTags: the SMT text talks about allocation tags, directly or through a spec function that does.
+func (g *Gen) mentionsTags(text string) bool {
+	if strings.Contains(text, "idtag") {
+		return true
+	}
+	if g.tagPures == nil {
+		g.tagPures = map[string]bool{}
+		for changed := true; changed; {
+			changed = false
+			for _, pf := range g.Pures {
+				if g.tagPures[pureSym(pf)] || pf.Body == nil {
+					continue
+				}
+				hit := mentionsCall(pf.Body, "elemOf", "tagged")
+				if !hit {
+					for _, q := range g.Pures {
+						if g.tagPures[pureSym(q)] && mentionsCall(pf.Body, q.Name) {
+							hit = true
+						}
+					}
+				}
+				if hit {
+					g.tagPures[pureSym(pf)] = true
+					changed = true
+				}
+			}
+		}
+	}
+	for sym := range g.tagPures {
+		if strings.Contains(text, sym+" ") || strings.Contains(text, sym+")") {
+			return true
+		}
+	}
+	return false
 }
